@@ -164,7 +164,8 @@ def oracle(ctx, cases, impl_lines):
             if I.ok and iI != (aI & bI):
                 hits.append(Hit(idx, "interval matching: v in A∩B differs from (v in A and v in B)", probe, iI, aI & bI, "i"))
             if U.ok and uI != (aI | bI):
-                ctx.count("info:union-under-interval-matching-differs")   # not claimed by the property text
+                # DESIGN 8 states the union law for interval matching too (C09_union_partial proves it inside its region)
+                hits.append(Hit(idx, "interval matching: v in A∪B differs from (v in A or v in B)", probe, uI, aI | bI, "u"))
             for nm, X, e, i_, slot in (("A", A, aE, aI, "a"), ("B", B, bE, bI, "b"), ("A∪B", U, uE, uI, "u"), ("A∩B", I, iE, iI, "i")):
                 if X.ok and X.empty and (e == 1 or i_ == 1):
                     hits.append(Hit(idx, "%s is reported Empty but matches v" % nm, probe, 1, 0, slot))
@@ -215,7 +216,7 @@ def classify(ctx, tables, cases, impl_lines, model_lines, hits, parsed):
     that case and the model's trace of the operation shows the recorded defect path"""
     open_ids = set(k["id"] for k in lib.load_known("C09") if k.get("status") == "open")
     same = [project(a) == project(b) for a, b in zip(impl_lines, model_lines)]
-    need = sorted(set(h.idx for h in hits if same[h.idx]))
+    need = sorted(i for i, p in enumerate(parsed) if p is not None)     # every accepted pair: the regions are counted
     # a permuted case is explained by the traces of both orders
     extra = set()
     for i in need:
@@ -231,19 +232,33 @@ def classify(ctx, tables, cases, impl_lines, model_lines, hits, parsed):
             if line is not None and line.startswith('("ok"'):
                 r = parse_sx(line)
                 ev = {"u": set(e[0].decode() for e in r[1]) | set(e[0].decode() for e in r[3]),
-                      "i": set(e[0].decode() for e in r[2]) | set(e[0].decode() for e in r[4])}
+                      "i": set(e[0].decode() for e in r[2]) | set(e[0].decode() for e in r[4]),
+                      "region": {"u": bool(r[5]), "i": bool(r[6])}}
                 diag[i] = ev
+                name = NAMES[cases[i]["sys"]]
+                ctx.count("region:%s:pairs" % name)
+                if r[5]:
+                    ctx.count("region:%s:inside C09_union_partial" % name)
+                if r[6]:
+                    ctx.count("region:%s:inside C09_inter_partial" % name)
     for h in hits:
         c = cases[h.idx]
         inp = {"system": NAMES[c["sys"]], "A": c["a"], "B": c["b"], "version": h.probe}
         if not same[h.idx]:
             ctx.violation(h.what, inp, h.observed, h.required)
             continue
+        # a hit inside the region of a _partial theorem contradicts the theorem: the model (about
+        # which the theorem speaks) and the implementation cannot both be what we think
+        reg = diag.get(h.idx, {}).get("region", {})
+        claimed = h.probe is not None and (is_release(h.probe) or "interval matching" in h.what) and "order of the" not in h.what and "Empty" not in h.what
+        if claimed and h.slot in ("u", "i") and reg.get(h.slot):
+            ctx.divergence("theorem-region", inp, "oracle hit inside the proved region of C09_%s_partial: %s" % ("union" if h.slot == "u" else "inter", h.what), "no hit")
+            continue
         ev = set()
         for i in (h.idx, c.get("perm_of")):
             if i is not None and i in diag:
                 d = diag[i]
-                ev |= d["u"] | d["i"] if h.slot in ("a", "b") else d[h.slot]
+                ev |= (d["u"] | d["i"]) if h.slot in ("a", "b") else d[h.slot]
         cls = None
         for tag in ("drop", "adj", "openunit", "premerge"):
             if tag in ev:
